@@ -16,7 +16,7 @@ Theorem c08_lengths : forall pw c g n,
   (forall add d s nd f w, (n <= 1000)%nat -> List.length (scp_series add n d s nd f w) = n) /\
   (forall add d s nd f w, (n <= 1000)%nat -> List.length (cs_series add n d s nd f w) = n) /\
   (forall add d nf mf, List.length (seaweed_built_area add n d nf mf) = n) /\
-  (forall daily, List.length (seaweed_growth daily) = List.length daily).
+  (forall daily, (n <= List.length daily)%nat -> List.length (seaweed_growth n daily) = n).
 Proof.
   intros pw c g n. repeat split; intros.
   - apply outdoor_production_length.
@@ -26,7 +26,7 @@ Proof.
   - apply scp_length; assumption.
   - apply cs_length; assumption.
   - apply built_area_length.
-  - unfold seaweed_growth. apply map_length.
+  - rewrite seaweed_growth_length. lia.
 Qed.
 Print Assumptions c08_lengths.
 
@@ -174,6 +174,12 @@ Proof.
   split; intro; [apply built_area_before_delay|apply built_area_after_delay]; assumption.
 Qed.
 Print Assumptions c08_built_area.
+
+(* ---- seaweed growth factors: one per simulated month, 100 x (1 + daily/100)^30 of that month's daily rate *)
+Theorem c08_growth : forall n daily m, (m < n)%nat -> (m < List.length daily)%nat ->
+  nthq (seaweed_growth n daily) m = 100 * Qpower (nthq daily m / 100 + 1) 30.
+Proof. exact seaweed_growth_nth. Qed.
+Print Assumptions c08_growth.
 
 (* ---- initial stored food: stock at the end of the month before the start (January wraps to December) *)
 Theorem c08_stored : forall s start r p w,
